@@ -40,19 +40,14 @@ def export_behaviours(ctx: core.Ctx, kind: str, depth: int) -> list[list[dict]]:
 
 def _walk(args):
     """Replay all histories that start with one first call (prefix-tree walk). Returns (n_steps, failures)."""
-    kind, variant, behs = args
+    kind, variant, behs, refs = args
     env.import_bluebonnet()
     inst = drv.default_inst(kind, variant)
-    refs: dict[str, tuple] = {}
     fails = []
     nsteps = 0
-    seen_nodes: set = set()
 
     def ref_for(obs):
-        k = json.dumps(obs, sort_keys=True)
-        if k not in refs:
-            refs[k] = drv.reference(inst, obs)
-        return refs[k]
+        return refs[json.dumps(obs, sort_keys=True)]
 
     # build the prefix tree
     tree: dict = {}
@@ -80,7 +75,7 @@ def _walk(args):
                 if outcome != "ok":
                     bad.append(("Outcome", f"expected a result, got {outcome}"))
                 else:
-                    routcome, rproj, _ = ref_for(ob)
+                    routcome, rproj = ref_for(ob)
                     if routcome != "ok":
                         bad.append(("NoRef", f"fresh object failed with {routcome} for {ob}"))
                     else:
@@ -103,9 +98,11 @@ def replay_histories(ctx: core.Ctx, kind: str, behs, variants, clauses=None, kee
     groups: dict[str, list] = {}
     for steps in behs:
         groups.setdefault(json.dumps(steps[0]["call"], sort_keys=True), []).append(steps)
-    tasks = [(kind, v, g) for v in variants for g in groups.values()]
+    rt = reference_tables([(kind, v) for v in variants])   # fresh interpreters, one per simulation
+    reftabs = {v: rt[(kind, v)] for v in variants}
+    tasks = [(kind, v, g, reftabs[v]) for v in variants for g in groups.values()]
     with ProcessPoolExecutor(max_workers=16) as ex:
-        for (k, v, g), (nsteps, fails, _nrefs) in zip(tasks, ex.map(_walk, tasks)):
+        for (k, v, g, _r), (nsteps, fails, _nrefs) in zip(tasks, ex.map(_walk, tasks)):
             ctx.evaluations += nsteps
             for f in fails:
                 if (clauses is None or f["clause"] in clauses) and (keep is None or keep(f)):
@@ -116,6 +113,20 @@ def replay_histories(ctx: core.Ctx, kind: str, behs, variants, clauses=None, kee
             ctx.nontrivial.add(f"{kind}/{v}/" + _fmt([s["call"] for s in steps]))
     ctx.sample({"kind": kind, "history": [s["call"] for s in behs[len(behs) // 3]],
                 "expected": [s["obs"] for s in behs[len(behs) // 3]]})
+
+
+_REF_CACHE: dict = {}
+
+
+def reference_tables(keys) -> dict:
+    """(kind, variant) -> reference table; computed once per check run, a few at a time."""
+    from concurrent.futures import ThreadPoolExecutor  # noqa: PLC0415
+
+    todo = [k for k in keys if k not in _REF_CACHE]
+    with ThreadPoolExecutor(max_workers=4) as ex:
+        for k, tab in zip(todo, ex.map(lambda kv: drv.reference_table(*kv), todo)):
+            _REF_CACHE[k] = tab
+    return {k: _REF_CACHE[k] for k in keys}
 
 
 def _fmt(calls) -> str:
@@ -145,7 +156,7 @@ def random_call(rng, kind):
 
 
 def _record(args):
-    kind, variant, seed, nobj, length, tid0 = args
+    kind, variant, seed, nobj, length, tid0, reftab = args
     env.import_bluebonnet()
     rng = np.random.default_rng([seed, variant, 17])
     inst = drv.default_inst(kind, variant)
@@ -154,7 +165,7 @@ def _record(args):
     tid = tid0
     seq = 0
     for obs in drv.all_observations(kind):
-        outcome, proj, _ = drv.reference(inst, obs)
+        outcome, proj = reftab[json.dumps(obs, sort_keys=True)]
         if outcome != "ok":
             return None, f"fresh object failed with {outcome} for {obs} ({inst.describe()})"
         events.append({"tid": tid, "seq": seq, "ev": "Ref", "objkind": kind, "obs": obs, "dig": dg.triple(proj)})
@@ -176,10 +187,11 @@ def _record(args):
 def trace_validation(ctx: core.Ctx, n_inst: int, nobj: int, length: int, clauses=None) -> None:
     tasks = []
     tid = 1
-    for kind in ("single", "ideal"):
-        for v in range(n_inst):
-            tasks.append((kind, v, ctx.seed, nobj, length, tid))
-            tid += 1
+    keys = [(kind, v) for kind in ("single", "ideal") for v in range(n_inst)]
+    reftabs = reference_tables(keys)
+    for kind, v in keys:
+        tasks.append((kind, v, ctx.seed, nobj, length, tid, reftabs[(kind, v)]))
+        tid += 1
     events = []
     with ProcessPoolExecutor(max_workers=16) as ex:
         for t, (evs, info) in zip(tasks, ex.map(_record, tasks)):
